@@ -8,7 +8,12 @@
 //   uses   : the same simulations over a multi-stream provider of counting engines
 //            (ScriptedEngine::calls); per action block (POPS_CORE_VERIF trace hook) the streams
 //            whose counters moved.
-//   vary   : named seeds; each of the ten seeds is changed in turn and the run repeated.
+//   vary   : named seeds; each of the ten seeds is changed in turn and the run repeated. A good third of
+//            the cases is focused on a process that its flag declares deterministic while a random
+//            choice remains (FOCUS_*): two or three hosts with establishment_stochasticity = false and
+//            landings that establish; host movements with movement_stochasticity = false from cells
+//            that hold several host classes; natural + anthropogenic kernel with
+//            dispersal_stochasticity = false (the choice between the two kernels is still drawn).
 //   order  : provider construction (seed + multi flag, named seeds, Config) over std engines; draws
 //            through the accessors next to the draws of fresh engines seeded with every seed involved.
 //   reject : missing keys, single-generator use of a multi-stream provider, SingleGeneratorProvider
@@ -98,13 +103,14 @@ struct Setup {
     IRaster npop;
     std::vector<Treat> treatments;
     std::string nat_kind, ant_kind;
-    int thr64 = 0, leave64 = 0;
+    int thr64 = 0, leave64 = 0, focus = 0;
     std::string cfgline() const {
         std::ostringstream o;
         o << "gen=" << config.generate_stochasticity << " est=" << config.establishment_stochasticity << " hosts=" << nhosts << " soils=" << use_soils
           << " anthro=" << config.use_anthropogenic_kernel << " dsto=" << config.dispersal_stochasticity << " nat=" << nat_kind << " ant=" << ant_kind
           << " inj=" << injected << " lethal=" << config.use_lethal_temperature << " survival=" << config.use_survival_rate
-          << " overpop=" << config.use_overpopulation_movements << " movements=" << config.use_movements << " wdist=" << weather_dist;
+          << " overpop=" << config.use_overpopulation_movements << " movements=" << config.use_movements << " wdist=" << weather_dist
+          << " msto=" << config.movement_stochasticity << " pnat=" << std::lround(config.percent_natural_dispersal * 16) << "/16";
         return o.str();
     }
 };
@@ -121,9 +127,15 @@ static void pick_kernel(Rng& rng, bool allow_other, std::string& type, std::stri
     else { type = RADIAL[rng.in(2, 7)]; kind = "radial"; }
 }
 
-static std::unique_ptr<Setup> make_setup(Rng& rng, int max_steps) {
+// Focus of a `vary` case: a configuration in which a process is switched to deterministic by its flag
+// and still has work to do. The random choices of make_setup are made as always (same number of draws)
+// and then overridden, so focus 0 generates exactly what it generated before.
+enum { FOCUS_NONE = 0, FOCUS_HOSTS_DET_EST = 1, FOCUS_MOVEMENT_DET = 2, FOCUS_KERNEL_CHOICE_DET = 3 };
+
+static std::unique_ptr<Setup> make_setup(Rng& rng, int max_steps, int focus = FOCUS_NONE) {
     std::unique_ptr<Setup> sp(new Setup());
     Setup& S = *sp;
+    S.focus = focus;
     static const int shapes[][2] = {{1, 1}, {1, 3}, {2, 2}, {2, 3}, {3, 1}, {3, 2}, {1, 2}, {4, 2}, {3, 3}, {4, 4}};
     int si = rng.in(0, 9);
     S.rows = shapes[si][0]; S.cols = shapes[si][1];
@@ -134,11 +146,24 @@ static std::unique_ptr<Setup> make_setup(Rng& rng, int max_steps) {
     S.nm = rng.in(1, 4);
     S.pool_entry = rng.coin(70);
     S.nhosts = S.pool_entry ? (rng.coin(55) ? 1 : rng.in(2, 3)) : 1;
+    if (focus == FOCUS_HOSTS_DET_EST) { S.pool_entry = true; S.nhosts = 2 + (int)(rng.s & 1); }
     IRaster total(rows, cols, 0);
     for (int k = 0; k < S.nhosts; k++) {
         S.hosts.emplace_back(rows, cols, S.ne, S.nm);
         HostState& h = S.hosts.back();
         h.randomize(rng, S.sei);
+        if (focus == FOCUS_HOSTS_DET_EST || focus == FOCUS_KERNEL_CHOICE_DET) {
+            // every cell holds susceptible hosts of every host species, the first cell of the first host is infected
+            for (int a = 0; a < rows; a++) for (int b = 0; b < cols; b++) if (h.s(a, b) < 3) { h.th(a, b) += 6 + k - h.s(a, b); h.s(a, b) = 6 + k; }
+            if (k == 0 && h.i(0, 0) == 0) { h.m[0](0, 0) = 3; h.i(0, 0) = 3; h.th(0, 0) += 3; }
+        }
+        if (focus == FOCUS_MOVEMENT_DET && k == 0) {
+            // every cell of the host that is moved holds at least two classes
+            for (int a = 0; a < rows; a++) for (int b = 0; b < cols; b++) {
+                if (h.s(a, b) < 2) { h.th(a, b) += 4 - h.s(a, b); h.s(a, b) = 4; }
+                if (h.i(a, b) == 0) { h.m[0](a, b) = 3; h.i(a, b) = 3; h.th(a, b) += 3; }
+            }
+        }
         for (int a = 0; a < rows; a++) for (int b = 0; b < cols; b++) {
             int excess = 0;
             for (auto& m : h.m) { if (m(a, b) > 4) { excess += m(a, b) - 4; m(a, b) = 4; } }
@@ -155,6 +180,13 @@ static std::unique_ptr<Setup> make_setup(Rng& rng, int max_steps) {
     config.establishment_stochasticity = rng.coin(60);
     config.establishment_probability = rng.in(0, 64) / 64.0;
     config.reproductive_rate = rng.in(0, 8) / 4.0;
+    if (focus == FOCUS_HOSTS_DET_EST) {
+        // deterministic establishment that does establish: the tester 1 - p is below the suitability of a cell with susceptible hosts
+        config.establishment_stochasticity = false;
+        config.establishment_probability = (60 + (int)(rng.s % 5)) / 64.0;
+        if (config.reproductive_rate < 1) config.reproductive_rate = 1.5;
+    }
+    if (focus == FOCUS_KERNEL_CHOICE_DET && config.reproductive_rate < 1) config.reproductive_rate = 2.0;
     // libstdc++'s poisson_distribution switches to a rejection algorithm with internal state (a cached
     // normal deviate) at mean >= 12: high rates make hidden distribution state visible to the run-twice check
     if (config.generate_stochasticity && rng.coin(20)) { static const double hi[] = {12.0, 13.5, 20.0, 40.0}; config.reproductive_rate = hi[rng.in(0, 3)]; stats.add("reproductive_rate_ge_12"); }
@@ -175,6 +207,19 @@ static std::unique_ptr<Setup> make_setup(Rng& rng, int max_steps) {
     config.percent_natural_dispersal = rng.in(0, 16) / 16.0;
     config.dispersal_percentage = 0.9;
     config.dispersal_stochasticity = rng.coin(70);
+    if (focus == FOCUS_KERNEL_CHOICE_DET) {
+        // both kernels deterministic (radial type through the deterministic kernel, or the neighbour kernel), different
+        // from each other, and a proper mixture of the two
+        S.injected = false;
+        config.dispersal_stochasticity = false;
+        config.use_anthropogenic_kernel = true;
+        config.percent_natural_dispersal = (4 + (int)(rng.s % 9)) / 16.0;
+        if (S.nat_kind == "uniform") { config.natural_kernel_type = "cauchy"; S.nat_kind = "radial"; }
+        if (S.ant_kind == "uniform" || S.ant_kind == S.nat_kind) {
+            if (S.nat_kind == "neighbor") { config.anthro_kernel_type = "exponential"; S.ant_kind = "radial"; config.anthro_direction = "none"; }
+            else { config.anthro_kernel_type = "deterministic neighbor"; S.ant_kind = "neighbor"; config.anthro_direction = DIRS[rng.s % 8]; }
+        }
+    }
     config.use_lethal_temperature = rng.coin(40); config.lethal_temperature = -5; config.lethal_temperature_month = rng.in(1, 12);
     config.use_survival_rate = rng.coin(40); config.survival_rate_month = rng.in(1, 12); config.survival_rate_day = rng.in(1, 28);
     config.use_overpopulation_movements = rng.coin(35);
@@ -186,6 +231,7 @@ static std::unique_ptr<Setup> make_setup(Rng& rng, int max_steps) {
     config.mortality_rate = rng.in(0, 64) / 64.0; config.mortality_time_lag = rng.in(0, S.nm - 1);
     config.use_treatments = S.pool_entry && rng.coin(35);
     config.use_movements = rng.coin(35);
+    if (focus == FOCUS_MOVEMENT_DET) { config.use_movements = true; config.movement_stochasticity = false; }
     config.use_spreadrates = S.pool_entry && rng.coin(30);  // the raster entry point sizes its rate tracker for 0 steps config.spreadrate_frequency = mfreq[rng.in(0, 3)]; config.spreadrate_frequency_n = (unsigned)rng.in(1, 4);
     config.use_quarantine = rng.coin(30); config.quarantine_frequency = mfreq[rng.in(0, 3)]; config.quarantine_frequency_n = (unsigned)rng.in(1, 4);
     config.quarantine_directions = "";
@@ -203,13 +249,32 @@ static std::unique_ptr<Setup> make_setup(Rng& rng, int max_steps) {
     Date st(y, m, unit == 2 ? 1 : rng.in(1, 28)); Date en(st); en.add_days((unsigned)rng.in(120, 400));
     config.set_date_start(st.year(), st.month(), st.day()); config.set_date_end(en.year(), en.month(), en.day());
     config.set_step_unit(unit == 0 ? StepUnit::Day : unit == 1 ? StepUnit::Week : StepUnit::Month); config.set_step_num_units(num);
-    int s1 = rng.in(1, 12), s2 = rng.in(s1, 12); config.set_season_start_end_month(s1, s2);
+    int s1 = rng.in(1, 12), s2 = rng.in(s1, 12);
+    if (focus != FOCUS_NONE && rng.s % 4 != 0) { s1 = 1; s2 = 12; }  // mostly: the spread action runs in every step
+    config.set_season_start_end_month(s1, s2);
     config.output_frequency = "every_step"; config.output_frequency_n = 1;
     std::string e0 = err_kind([&] { config.create_schedules(); });
     if (!e0.empty()) { stats.add("config_rejected"); return nullptr; }
     S.nsteps = config.scheduler().get_num_steps();
     if ((int)S.nsteps > max_steps) S.nsteps = (unsigned)max_steps;
-    if (config.use_movements) {
+    if (focus == FOCUS_MOVEMENT_DET) {
+        // rows in steps in which the spread action (which carries the movements) runs, each taking some but not all hosts
+        // of a cell that holds several classes
+        std::vector<unsigned> spread_steps;
+        for (unsigned k = 0; k < S.nsteps; k++) if (config.spread_schedule()[k]) spread_steps.push_back(k);
+        int nrows = spread_steps.empty() ? 0 : rng.in(1, 4);
+        std::vector<unsigned> when;
+        for (int k = 0; k < nrows; k++) when.push_back(spread_steps[(size_t)rng.in(0, k == 0 ? 0 : (int)spread_steps.size() - 1)]);  // one row in the first spread step
+        std::sort(when.begin(), when.end());
+        for (unsigned k : when) {
+            int a = rng.in(0, rows - 1), b = rng.in(0, cols - 1);
+            int a2 = rng.in(0, rows - 1), b2 = rng.in(0, cols - 1);
+            if (a2 == a && b2 == b && rows * cols > 1) { if (cols > 1) b2 = (b + 1) % cols; else a2 = (a + 1) % rows; }
+            int n = rng.in(1, std::max(1, S.hosts[0].th(a, b) / 3));
+            S.movements.push_back({a, b, a2, b2, n});
+            config.movement_schedule.push_back(k);
+        }
+    } else if (config.use_movements) {
         int nrows = rng.in(0, 6); unsigned cur = 0;
         for (int k = 0; k < nrows; k++) {
             cur += (unsigned)rng.in(0, 3); if (cur >= S.nsteps) break;
@@ -256,6 +321,10 @@ static std::unique_ptr<Setup> make_setup(Rng& rng, int max_steps) {
     if (S.use_soils) stats.add("soils"); if (S.weather_dist) stats.add("weather_dist"); if (S.weather_det) stats.add("weather_det");
     if (!config.generate_stochasticity) stats.add("generate_deterministic");
     if (!config.establishment_stochasticity) stats.add("establishment_deterministic");
+    if (!config.establishment_stochasticity && S.nhosts >= 2) stats.add("establishment_deterministic_hosts_ge_2");
+    if (config.use_movements && !config.movement_stochasticity) stats.add("movement_deterministic_rows", (long)S.movements.size());
+    if (config.use_anthropogenic_kernel && !config.dispersal_stochasticity && !S.injected && S.ant_kind != "uniform") stats.add("kernel_choice_deterministic");
+    stats.add("focus_" + std::to_string(focus));
     if (!config.dispersal_stochasticity) stats.add("dispersal_deterministic");
     stats.add("setup_steps", S.nsteps);
     return sp;
@@ -559,11 +628,16 @@ static std::string fold(const std::vector<std::string>& d) { Fnv f; for (auto& s
 static void vary_case(Case& c) {
     Rng& rng = c.rng;
     std::ostream& out = c.out;
-    auto Sp = make_setup(rng, 10);
+    int fk = rng.in(0, 99);
+    int focus = fk < 22 ? FOCUS_HOSTS_DET_EST : fk < 44 ? FOCUS_MOVEMENT_DET : fk < 58 ? FOCUS_KERNEL_CHOICE_DET : FOCUS_NONE;
+    auto Sp = make_setup(rng, 10, focus);
     if (!Sp) { out << "# config rejected\n"; return; }
     const Setup& S = *Sp;
     SeedSpec ss = random_seeds(rng, 2);
     out << "rng.cfg " << S.cfgline() << " seeds=" << ss.str() << " => ok\n";
+    out << "# focus=" << S.focus << " steps=" << S.nsteps << " arrival=" << S.config.arrival_behavior() << " movement rows (from to count @step):";
+    for (size_t k = 0; k < S.movements.size(); k++) out << " " << S.movements[k][0] << "," << S.movements[k][1] << ">" << S.movements[k][2] << "," << S.movements[k][3] << ":" << S.movements[k][4] << "@" << S.config.movement_schedule[k];
+    out << "\n";
     auto ref = run_alone<StdE>(S, ss);
     std::string refd = fold(ref);
     bool threw = false;
@@ -575,6 +649,12 @@ static void vary_case(Case& c) {
         std::string d = fold(run_alone<StdE>(S, v));
         out << "rng.vary " << NAMES[k] << " " << refd << " => " << d << "\n";
         if (d == refd) { same++; stats.add(std::string("vary_same_") + NAMES[k]); } else stats.add(std::string("vary_differs_") + NAMES[k]);
+        // a process switched to deterministic by its flag whose seed still matters
+        if (d != refd) {
+            if (k == 3 && !S.config.establishment_stochasticity && S.nhosts >= 2) stats.add("vary_differs_establishment_deterministic_hosts_ge_2");
+            if (k == 6 && S.config.use_movements && !S.config.movement_stochasticity) stats.add("vary_differs_movement_deterministic");
+            if (k == 2 && S.config.use_anthropogenic_kernel && !S.config.dispersal_stochasticity && !S.injected && S.ant_kind != "uniform") stats.add("vary_differs_kernel_choice_deterministic");
+        }
     }
     if (threw) stats.add("vary_run_threw");
     c.nontrivial = S.nsteps >= 3 && !threw && same < 10;
